@@ -5,20 +5,28 @@ VARIABLE done
 RandSrc(dd) == [up |-> RandomElement(0..dd), dirs |-> RandomElement(DirSeqs),
                 stem |-> RandomElement(Stems), ext |-> RandomElement(Exts)]
 \* a neighbour of s: same place, one field changed -- collisions live among neighbours
-Near(dd, s) == LET k == RandomElement(1..5) IN
+Near(dd, s) == LET k == RandomElement(1..7) IN
    CASE k = 1 -> [s EXCEPT !.ext = RandomElement(Exts)]
+     \* same directory sequence except for the first component
+     [] k = 6 -> (IF s.dirs = <<>> THEN RandSrc(dd) ELSE [s EXCEPT !.dirs = <<RandomElement(Names)>> \o Tail(s.dirs)])
+     [] k = 7 -> (IF s.dirs = <<>> THEN RandSrc(dd) ELSE [s EXCEPT !.dirs = <<RandomElement(Names)>> \o Tail(s.dirs)])
      [] k = 2 -> [s EXCEPT !.stem = RandomElement(Stems)]
      [] k = 3 -> [s EXCEPT !.dirs = RandomElement(DirSeqs)]
      [] k = 4 -> [s EXCEPT !.up = RandomElement(0..dd)]
      [] OTHER -> RandSrc(dd)
-GenInit == done = FALSE /\ d = 0 /\ intdirs = FALSE /\ s1 = 0 /\ s2 = 0
+GenInit == done = FALSE /\ d = 0 /\ intdirs = FALSE /\ s1 = 0 /\ s2 = 0 /\ td = <<>>
 GenNext == /\ ~done /\ done' = TRUE
            /\ \E dd \in {RandomElement(0..MaxDepth)} :
-              \E a \in {RandSrc(dd)} : \E b \in {Near(dd, a)} : \E c \in {Near(dd, b)} :
+              \E tdd \in {RandomElement(TDirs)} :
+              \E a0 \in {RandSrc(dd)} :
+              \* half of the time the first source sits in a directory that ends like the target's directory
+              \E a \in {IF tdd # <<>> /\ RandomElement(BOOLEAN)
+                          THEN [a0 EXCEPT !.up = 0, !.dirs = <<RandomElement(Names)>> \o Tail(tdd)] ELSE a0} :
+              \E b \in {Near(dd, a)} : \E c \in {Near(dd, b)} :
               \E id \in {RandomElement(BOOLEAN)}, kind \in {RandomElement({"executable", "static_library", "shared_library", "object_files", "copy"})},
                  n \in {RandomElement(2..3)} :
-                 /\ d' = dd /\ intdirs' = id /\ s1' = a /\ s2' = b
-                 /\ PrintT(ToJson([d |-> dd, intdirs |-> id, kind |-> kind,
+                 /\ d' = dd /\ intdirs' = id /\ s1' = a /\ s2' = b /\ td' = tdd
+                 /\ PrintT(ToJson([d |-> dd, intdirs |-> id, kind |-> kind, tdirs |-> tdd,
                                    sources |-> IF n = 2 THEN <<a, b>> ELSE <<a, b, c>>]))
 GenSpec == GenInit /\ [][GenNext]_<<vars, done>>
 =============================================================================
